@@ -757,9 +757,9 @@ Section Univ.
       + apply mem_false in M. split; [now apply I2|]. intro X; congruence.
   Qed.
 
-  Lemma delete_loop_good cfg o fuel : forall q s, Good cfg s -> Good cfg (fst (delete_loop fuel cfg o q s)).
+  Lemma delete_loop_good cfg o fuel : forall ds q s, Good cfg s -> Good cfg (fst (delete_loop fuel cfg o ds q s)).
   Proof.
-    induction fuel as [|f IH]; intros q s G; simpl; auto.
+    induction fuel as [|f IH]; intros ds q s G; simpl; auto.
     destruct q as [|h q]; simpl; auto.
     pose proof (delete1_good cfg o h s G) as G1.
     destruct (delete1 cfg o h s) as [[s' dang] okb]. simpl in G1.
@@ -1067,6 +1067,54 @@ Section Univ.
     split; [apply reopen_equiv | apply disk_valid_inv]; auto.
   Qed.
 
+  (* any AutoSaveIndex setting: read-write reopens only right after SaveIndex *)
+  Definition Good2 (cfg : config) (b : bool) (s : store) :=
+    Inv s /\ (autosave cfg = true \/ b = true -> Synced s).
+  Definition saved_after (o : op) : bool := match o with OSave | OReopen => true | _ => false end.
+
+  Lemma step_good2 cfg b s oo :
+    Good2 cfg b s -> wf_op (fst oo) -> (fst oo = OReopen -> b = true) ->
+    Good2 cfg (saved_after (fst oo)) (fst (step cfg s oo)).
+  Proof.
+    intros [H S] W R.
+    assert (G : Good cfg s) by (split; auto).
+    destruct oo as [o ord]. simpl in W, R. simpl fst at 1.
+    assert (X : o <> OReopen -> o <> OSave -> Good2 cfg (saved_after o) (fst (step cfg s (o, ord)))).
+    { intros N1 N2.
+      assert (G' : Good cfg (fst (step cfg s (o, ord)))) by (apply step_good; auto).
+      destruct G' as [H' S']. split; auto. intros [A|A]; auto.
+      destruct o; simpl in A; try discriminate; congruence. }
+    destruct o; try (apply X; discriminate).
+    - simpl. split; [exact H|]. intros _. unfold Synced, idx. simpl. apply save_diskok. apply H.
+    - simpl. destruct (reopen_good s H (S (or_intror (R eq_refl)))) as [H' S']. split; auto.
+  Qed.
+
+  Lemma run_good2 cfg h : forall b s,
+    Good2 cfg b s -> wf_history h -> reopen_after_save b h -> Inv (run cfg h s).
+  Proof.
+    induction h as [|oo h IH]; intros b s G W R; simpl; [apply G|].
+    inversion W as [|? ? W1 W2]; subst.
+    apply (IH (saved_after (fst oo))); auto.
+    - apply (step_good2 cfg b); auto. intro E. simpl in R. rewrite E in R. apply R.
+    - simpl in R. destruct (fst oo); simpl; try exact R. apply R.
+  Qed.
+
+  Theorem reopen_equiv_saveindex_general T cfg h o :
+    wf_history h -> reopen_after_save true h ->
+    let s := run cfg (h ++ [(OSave, o)]) store_empty in
+    obs_equiv T (reopen s) s /\ disk_valid s = true.
+  Proof.
+    intros W R s.
+    assert (H : Inv (run cfg h store_empty)).
+    { apply (run_good2 cfg h true); auto. split; [apply inv_empty | intros _; apply synced_empty]. }
+    assert (E : s = do_save o (run cfg h store_empty)).
+    { unfold s, OciIndex.run. rewrite fold_left_app. reflexivity. }
+    assert (H' : Inv s) by (rewrite E; exact H).
+    assert (S' : Synced s).
+    { rewrite E. unfold Synced, idx. simpl. apply save_diskok. apply H. }
+    split; [apply reopen_equiv | apply disk_valid_inv]; auto.
+  Qed.
+
   (* the representation facts other properties rely on (C07: the reloaded graph is the live graph) *)
   Theorem store_invariant cfg h :
     wf_history h -> (autosave cfg = true \/ no_reopen h) ->
@@ -1123,11 +1171,11 @@ Qed.
    histories *)
 Definition ex_hist : list (op * orders) :=
   [ (OPush 0, ord0); (OPush 1, ord0); (OPush 2, ord0);
-    (OTag (mkDesc 2 1 (Some (RTag 5))) (RTag 0), mkOrd [1;0] [2] [] []);
+    (OTag (mkDesc 2 1 (Some (RTag 5))) (RTag 0), mkOrd [1;0] [2] [] [] []);
     (OTag (plain 1) (RTag 1), ord0); (OTag (mkDesc 1 2 None) (RTag 0), ord0);
     (OTag (plain 0) (RDig 0), ord0);
-    (OUntag (RTag 1), mkOrd [3;1] [0;2] [] []); (OGC, mkOrd [] [1] [2;1] [1;1;0]);
-    (ODelete 2, ord0); (OReopen, ord0); (OPush 2, ord0) ].
+    (OUntag (RTag 1), mkOrd [3;1] [0;2] [] [] []); (OGC, mkOrd [] [1] [2;1] [1;1;0] []);
+    (ODelete 2, mkOrd [1] [] [] [] [([1], [2;0])]); (OReopen, ord0); (OPush 2, ord0) ].
 Lemma example_history :
   wf_history ex_hist /\ (forall k, ex_mf k = false -> ex_succs k = []) /\
   let s := run 3 ex_mf ex_succs (fun _ => None) (fun _ => true) true true ex_cfg ex_hist store_empty in
